@@ -25,6 +25,54 @@ CHECKS = {
         "implementation and compared per prefix with the exact optimum; value-based oracle accepts any minimiser.",
         "DESIGN.md §5 C02",
     ),
+    "C01": (
+        "exploration",
+        "bounded exhaustive enumeration of all data matrices over small alphabets x 12 cost variants x all admissible "
+        "intervals x batch shapes, real evaluate vs exact rational-arithmetic definition",
+        "Every matrix of the stated spaces is fitted and every admissible interval evaluated alone, in full batches in both "
+        "orders, in ordered pairs and again afterwards; values compared with the definition computed from X[s:e] in Fractions.",
+        "DESIGN.md §5 C01",
+    ),
+    "C06": (
+        "exploration",
+        "bounded exhaustive enumeration of all data matrices x cost variants x all 3-/4-point cuts through the three "
+        "adapters and the direct scores, vs the defining cost differences; all {0,1,2} cost tables for table costs",
+        "Every admissible cut of every matrix in the stated spaces is scored by every adapter(cost) composition and compared "
+        "with the defining identity; inequalities of the statement are checked on every cut.",
+        "DESIGN.md §5 C06",
+    ),
+    "C07": (
+        "model_checking",
+        "bounded exhaustive enumeration of environment tables/data through the real detector + complete exploration of "
+        "the nondeterministic greedy specification per case (refinement / trace-membership check)",
+        "For every case the specification's state graph (all tie-breaks) is explored completely and the implementation's "
+        "output must be one of its outputs; interval construction and per-interval maxima are checked on every case.",
+        "DESIGN.md §5 C07",
+    ),
+    "C08": (
+        "exploration",
+        "bounded exhaustive enumeration of (n, bandwidth) with an encoding score, of all per-position level tables "
+        "relative to the read-back threshold, and of all small-alphabet series with reversal",
+        "Every execution in the stated finite spaces runs the real MovingWindow; window placement is decoded from the "
+        "scores, detections compared with an independent run detector, reversal checked with margin gating.",
+        "DESIGN.md §5 C08",
+    ),
+    "C09": (
+        "model_checking",
+        "bounded exhaustive enumeration of local-score tables/data through the real detector + complete exploration of "
+        "the nondeterministic greedy-with-overlap specification per case (refinement check)",
+        "As C07 with 4-point cuts: one-hot / poison tables decide the admissible inner intervals, all small tables decide "
+        "row maxima, refinement against the complete specification graph decides the greedy selection.",
+        "DESIGN.md §5 C09",
+    ),
+    "C13": (
+        "exploration",
+        "exhaustive enumeration of the integer box [-2, n+2]^k for every scorer, several integer dtypes, mixed batches "
+        "and malformed arrays, vs a validity predicate written from the statement",
+        "Every tuple of the box is submitted to the real evaluate: invalid ones must raise ValueError, valid ones must "
+        "return the value obtained from exactly the rows they describe.",
+        "DESIGN.md §5 C13",
+    ),
     "C03": (
         "exploration",
         "bounded exhaustive enumeration of sub-additive saving tables x point-saving vectors x penalty branches "
